@@ -23,9 +23,18 @@ KANI = {}
 
 PROPERTIES = {
     "C04": {"verus": ["v1_sync"], "kani": [], "level": "proof",
-            "explanation": "", "assumptions": []},
+            "technique": "contract-based deductive verification (Verus on Sync::sync extracted verbatim; typestate preconditions on the switch-over)",
+            "level_text": "Sync::sync, extracted byte-for-byte on every run, is proved for all inputs against callee contracts in which Meta::write requires the WAL, value files and rollback range named by the new meta to be durable and every post-switch-over step requires the committed meta. Proof of the ordering inside the orchestrating function, not of the whole system.",
+            "level_note": "callee contracts (bitbox/beatree/rollback sync controllers, Meta::write) are assumed (stubs) except where a Kani harness discharges them; threads behind begin_sync, fsync semantics of the OS and the u32 sequence number not wrapping are assumed",
+            "explanation": "", "assumptions": ["callee contracts listed in trusted_base", "fsync makes data durable", "sync_seqn < u32::MAX", "panic_on_sync test knob is off"]},
     "C12": {"verus": ["v3_commit_entry"], "kani": [], "level": "proof",
-            "explanation": "", "assumptions": []},
+            "technique": "contract-based deductive verification (Verus on the four commit entry points extracted verbatim; effects require an `authorised()` token only the base check yields)",
+            "level_text": "FinishedSession::{commit,try_commit_nonblocking} and Overlay::{commit,try_commit_nonblocking} are proved for all inputs: every effectful callee (rollback log append, store commit, overlay status flip) and both shared-state assignments require that the previous-root check has passed on this execution. Failures are replayed by scenarios against the real crate.",
+            "level_note": "the list of effectful callees is the stub list (Rollback::commit*, Store::commit, Overlay::mark_committed, assignments to Shared); parking_lot guards are modelled as &mut T; callee bodies are not verified here",
+            "explanation": "", "assumptions": ["effectful callees are exactly the stubs that require authorised()", "lock guards modelled as &mut T"]},
     "C14": {"verus": ["v1_sync", "v2_store_commit"], "kani": [], "level": "proof",
-            "explanation": "", "assumptions": []},
+            "technique": "contract-based deductive verification (Verus: Ok only through callees' Ok tokens; poison protocol of Store::commit)",
+            "level_text": "Sync::sync and Store::commit, extracted verbatim, are proved for all inputs: Ok is returned only if every fallible callee returned Ok (each Ok yields a token the postcondition demands), every error path leaves the poison flag set, and a sync is started only after the flag was read clear. Reopen-atomicity (the C03 part of the statement) is not decided.",
+            "level_note": "callee contracts are assumed (stubs); join_task forwarding a task's Err, thread pools and the OS are assumed; AtomicBool and parking_lot::Mutex are external models",
+            "explanation": "", "assumptions": ["callee contracts listed in trusted_base", "AtomicBool/Mutex models"]},
 }
